@@ -750,6 +750,13 @@ def make_test_class(t, modname, layers):
         ns['layer'] = layers[t['l']] if not t.get('lstr') else (modname + '.' + t['l'])
     if t.get('lv') is not None and li is None:
         ns['level'] = t['lv']
+    if t.get('falsyt'):
+        # test case objects that are falsy (a container mixin with __len__,
+        # a __bool__ that reports some state)
+        if t['falsyt'] == 'len':
+            ns['__len__'] = lambda self: 0
+        else:
+            ns['__bool__'] = lambda self: False
     cls = type(cname, (VTCase,), ns)
     if s == 'skip_cls':
         cls = unittest.skip('class skipped')(cls)
@@ -1062,6 +1069,11 @@ class VThread:
         self._dummy = dummy      # threading._DummyThread of a _thread thread
         self.daemon = True
 
+    _falsy = False
+
+    def __bool__(self):
+        return not self._falsy
+
     def is_alive(self):
         # CPython 3.12: a _DummyThread reports alive for ever
         return True if self._dummy else self._alive
@@ -1090,12 +1102,18 @@ class VTable:
 
     def start(self, api, name, tid, blocked, touch):
         ident = self._ident()
+        falsy = name.startswith('falsy:')
+        if falsy:
+            # a Thread subclass whose instances are falsy (a worker that is
+            # also the - currently empty - queue of its jobs)
+            name = name[6:]
         rec = {'ident': ident, 'name': name, 'api': api, 'blocked': blocked,
                'touch': touch, 'ended': False}
         self.recs[tid] = rec
         self.alive[ident] = tid
         if api == 'threading':
             self.known[ident] = VThread(ident, name or 'Thread-%s' % tid)
+            self.known[ident]._falsy = falsy
         elif touch:
             self.known[ident] = VThread(ident, 'Dummy-%s' % tid, dummy=True)
         if not blocked:
